@@ -31,6 +31,30 @@ func init() {
 			"the clock only advances when the harness advances it",
 		},
 		Outside: []string{"more than n Set calls", "the Go runtime's timer implementation", "256 or more outstanding callbacks (pending is a uint8)"}})
+	// ---- C19 data races
+	register(&Prop{ID: "C19", Pkgs: []HarnessPkg{{Dir: "vnet", Name: "vnet"}, {Dir: "packetio", Name: "packetio"}, {Dir: "deadline", Name: "deadline"}},
+		InitPkgs: []string{"deadline", "packetio", "vnet"},
+		Runs: func(tier string) []gosym.RunConfig {
+			rs := []gosym.RunConfig{
+				{Name: "vnet-mac", PkgPath: modulePath + "/vnet", Entry: "VerifRaceMAC", Sched: true, Races: true},
+				{Name: "packetio-r1w1", PkgPath: modulePath + "/packetio", Entry: "VerifBufSched", Sched: true, Races: true, SmallInts: 32, Unwind: 6, AssertPrefix: "C19:",
+					Params: map[string]int64{"readers": 1, "writers": 1, "close": 1, "deadline": 0, "steps": 60}},
+				{Name: "deadline-n2", PkgPath: modulePath + "/deadline", Entry: "VerifDeadline", Sched: true, Races: true, AssertPrefix: "C19:",
+					Params: map[string]int64{"n": 2, "obs": 0, "steps": 40}},
+			}
+			if tier == "thorough" {
+				rs = append(rs, gosym.RunConfig{Name: "packetio-r2w2", PkgPath: modulePath + "/packetio", Entry: "VerifBufSched", Sched: true, Races: true, SmallInts: 32, Unwind: 6, AssertPrefix: "C19:",
+					Params: map[string]int64{"readers": 2, "writers": 2, "close": 0, "deadline": 0, "steps": 60}})
+			}
+			return rs
+		},
+		Bounds: func(tier string) []string {
+			return []string{"client programs: two goroutines creating hardware addresses (NewNet/NewRouter path); packet buffer with 1 reader, 1 writer and Close (thorough: 2x2); deadline with 2 Set calls and timer callbacks",
+				"a race = two accesses to the same memory cell (at least one write, not both atomic) by segments of different goroutines that are enabled in the same world while holding no common lock"}
+		},
+		Assume: []string{"accesses are recorded per heap cell (object, field path) by the executor; synchronisation = the modelled sync/atomic/channel operations; the Go memory model below that granularity is trusted",
+			"a reported race is replayed under the Go race detector (go test -race) with free-running goroutines"},
+		Outside: []string{"client programs outside the listed operation sets (vnet sockets/routers/filters, udp listener, dpipe are not covered yet)"}})
 	// ---- C16 loss filter
 	register(&Prop{ID: "C16", Pkgs: []HarnessPkg{{Dir: "vnet", Name: "vnet"}}, InitPkgs: []string{"vnet"},
 		Runs: func(tier string) []gosym.RunConfig {
